@@ -254,8 +254,9 @@ func c05newLg(lg *zap.Logger) *c05lg {
 }
 
 // derive kinds (Model.v [derive])
-func c05derive(cur *zap.Logger, k, i int, t zapcore.Level) *zap.Logger {
-	switch k {
+func c05derive(env *c05env, cur *zap.Logger, o c05op, i int) *zap.Logger {
+	t := zapcore.Level(o.v)
+	switch o.n {
 	case 0:
 		return cur.With(zap.Int("k", i))
 	case 1:
@@ -268,6 +269,10 @@ func c05derive(cur *zap.Logger, k, i int, t zapcore.Level) *zap.Logger {
 		return cur.Sugar().Desugar()
 	case 5:
 		return cur.WithOptions(zap.IncreaseLevel(t))
+	case 6:
+		return cur.WithOptions(zap.Hooks(env.hookFn(o.a)))
+	case 7:
+		return cur.WithOptions(zap.WrapCore(func(c zapcore.Core) zapcore.Core { return zapcore.RegisterHooks(c, env.hookFn(o.a)) }))
 	}
 	return cur.WithOptions()
 }
